@@ -45,14 +45,25 @@ def configs(tier, seed):
         out.append(dict(harness="plain", gzip=gz, cost=2))
         out.append(dict(harness="plain_fault", gzip=gz, cost=3))
     trips = [(0, 0, 0), (1, 1, 0), (1, 0, 1), (2, 2, 0)] + ([(0, 2, 1), (2, 1, 0), (1, 2, 2)] if tier == "thorough" else [])
+    encs = [("raw", "raw"), ("gzip", "gzip"), ("raw", "gzip"), ("gzip", "raw")]
     n = 0
     for grid in ((2, 2, 2), (3, 2, 1)) + (((3, 3, 2), (4, 1, 2), (2, 1, 1)) if tier == "thorough" else ()):
         for t in trips:
             n += 1
-            enc = [("raw", "raw"), ("gzip", "gzip"), ("raw", "gzip"), ("gzip", "raw")][n % 4]
+            if tier == "thorough":
+                # every encoding pair, both file layouts
+                for enc in encs:
+                    for legacy in (False, True):
+                        out.append(dict(harness="sharded", grid=list(grid), m=t[0], s=t[1], p=t[2], idx_enc=enc[0], data_enc=enc[1],
+                                        legacy=legacy, cost=4, wall=1200))
+                        if legacy == bool(n % 2):
+                            out.append(dict(harness="sharded_fault", grid=list(grid), m=t[0], s=t[1], p=t[2], idx_enc=enc[0],
+                                            data_enc=enc[1], legacy=legacy, cost=8, wall=1500))
+                continue
+            enc = encs[n % 4]
             out.append(dict(harness="sharded", grid=list(grid), m=t[0], s=t[1], p=t[2], idx_enc=enc[0], data_enc=enc[1],
                             legacy=bool(n % 2), cost=4, wall=1200))
-            if n % 2 == 0 or tier == "thorough":
+            if n % 2 == 0:
                 out.append(dict(harness="sharded_fault", grid=list(grid), m=t[0], s=t[1], p=t[2], idx_enc=enc[0], data_enc=enc[1],
                                 legacy=bool(n % 4 == 0), cost=8, wall=1500))
     out.append(dict(harness="dispatch", cost=1))
